@@ -612,3 +612,89 @@ def scratch_grow(rep, prog, rule):
             else:
                 rep.ok(rule, key, c.at, "grown when %s" % verdict[1][:80])
     rep.floor(rule, "conditional scratch-buffer growth sites", n, 1)
+
+
+def bounds_trim(rep, prog, rule):
+    """C03 / C01: the bookkeeping of the window bounds in precompute_coefficients. Every kernel
+    load relies on  start + size <= in_size  of the pushed Bound, and `size = bound_end -
+    bound_start` is an unsigned subtraction."""
+    rep.rule(rule, "in precompute_coefficients bound_end only moves down from x_max and bound_start only "
+             "up from x_min, and every step keeps bound_start <= bound_end: each decrement of bound_end "
+             "happens on an edge where bound_end > bound_start was tested (or by a count taken over the "
+             "coefficients pushed for the current pixel only, coeffs[cur_index..]); a decrement by a count "
+             "taken over the whole coefficient vector (which also holds the padding zeros of the previous "
+             "pixels) is a violation: for a window of zero weights bound_end drops below bound_start and "
+             "`size` wraps (debug: panic; release: the kernels read out of bounds); other unguarded "
+             "updates are undecided")
+    fs = [f for f in prog.fns.values() if f.name == "convolution::precompute_coefficients"]
+    if len(fs) != 1:
+        rep.unk(rule, "precompute_coefficients|anchor", "", "%d functions named precompute_coefficients" % len(fs))
+        return
+    f = fs[0]
+    rep.touch(f)
+    sym = Sym(f)
+    names = {f.local_name(l): l for l in sym.defs}
+    if "bound_end" not in names or "bound_start" not in names:
+        rep.unk(rule, "precompute_coefficients|locals", f.loc, "bound_start / bound_end not found")
+        return
+    n = 0
+    for nm, sign in (("bound_end", "Sub"), ("bound_start", "Add")):
+        l = names[nm]
+        for (bb, j, rv, whole) in sym.defs[l]:
+            # the update as written: the MIR right-hand side of this statement only
+            e = sym.rvalue(rv, bb, (bb, j))
+            s = fmt(e)
+            me = ("local", l, nm)
+            is_update = rv[0] == "bin" or (e[0] in ("bin", "ovf") and nm in s and not s.startswith("(min(") and not s.startswith("(max("))
+            raw = rv
+            step = None
+            if raw[0] in ("bin", "ovf_bin", "checked") or (isinstance(raw, list) and raw and raw[0] == "bin"):
+                step = raw
+            if not (e[0] == "bin" and e[1] in ("Add", "Sub")) and not (e[0] == "ovf"):
+                continue        # the initial value
+            ee = e[1] if e[0] == "ovf" else e
+            if not (ee[0] == "bin" and ee[1] in ("Add", "Sub")):
+                continue
+            n += 1
+            amount = ee[3]
+            key = "precompute_coefficients|%s %s %s" % (nm, "-=" if ee[1] == "Sub" else "+=",
+                                                          re.sub(r"@bb\d+", "", fmt(amount))[:50])
+            loc = f.blocks[bb]["s"][j][3] if j != "term" else f.loc
+            if ee[1] != sign:
+                rep.bad(rule, key + "|direction", loc, "%s moves in the wrong direction (%s)" % (nm, fmt(ee)[:80]))
+                continue
+            # guards on edges that dominate the update with no other update of the two cursors in
+            # between (the generic fact engine drops facts about variables that change in the loop)
+            from ..cfg import Dom
+            dom = Dom(f)
+            others = {d[0] for nm2 in ("bound_end", "bound_start") for d in sym.defs[names[nm2]]
+                      if (d[0], d[1]) != (bb, j)}
+            facts = []
+            for (p_, s_, cond, val) in sym.edge_facts():
+                if f.pred[s_] != [p_] or not dom.dominates(s_, bb):
+                    continue
+                if any(dom.dominates(s_, d) and dom.dominates(d, bb) and d != bb for d in others):
+                    continue
+                facts.append((cond, val))
+            guarded = False
+            for cond, val in facts:
+                t_ = fmt(cond)
+                if cond[0] == "bin" and "bound_end" in t_ and "bound_start" in t_:
+                    a_, b_ = fmt(cond[2]), fmt(cond[3])
+                    lt = (cond[1], val) in (("Le", False), ("Gt", True)) and "bound_end" in a_ and "bound_start" in b_
+                    lt = lt or ((cond[1], val) in (("Ge", False), ("Lt", True)) and "bound_start" in a_ and "bound_end" in b_)
+                    if lt:
+                        guarded = True
+                if nm == "bound_start" and cond[0] == "bin" and cond[1] == "Eq" and val is True and "bound_start" in t_:
+                    guarded = True      # x == bound_start for an x of the range x_min..x_max
+            am = fmt(amount)
+            if guarded:
+                rep.ok(rule, key, loc, "step taken only where bound_start < bound_end (or x == bound_start)")
+            elif "count" in am and re.search(r"iter(@bb\d+)?\((deref(@bb\d+)?\()?\(?&?coeffs\b", am) and "cur_index" not in am:
+                rep.bad(rule, key + "|whole-vector", loc,
+                        "bound_end is lowered by %s: a count over the whole coefficient vector, which also "
+                        "holds the padding of the previous pixels; with a window of zero weights it exceeds "
+                        "bound_end - bound_start and `size` wraps" % am[:100])
+            else:
+                rep.unk(rule, key, loc, "update without a test of bound_start against bound_end on the path")
+    rep.floor(rule, "updates of the window bounds", n, 2)
